@@ -110,6 +110,18 @@ Definition cut_spec (tbl : list (bytes * bytes)) (o : cut_obs) : bool :=
   negb (co_panic o) && co_prefix_ok o && N.eqb (co_k o) (N.of_nat j) &&
   N.eqb (co_n o) (frames_len tbl j) && Bool.eqb (co_err o) (negb (N.eqb (co_n o) (co_cut o))).
 
+(* one segment file handed to the real CacheLoader.Load: snappy table, full bytes, the offset it
+   was torn at, and the file size found after Load *)
+Record load_seg := { ls_tbl : list (bytes * bytes); ls_seg : bytes; ls_cut : N; ls_size_after : N }.
+Definition ls := Build_load_seg.
+
+Definition load_agree (s : load_seg) : bool :=
+  let r := replay_segment (tbl_dec (ls_tbl s)) (firstn (N.to_nat (ls_cut s)) (ls_seg s)) in
+  negb (r_crashed r) && N.eqb (ls_size_after s) (if r_err r then r_n r else ls_cut s).
+
+Definition load_spec (s : load_seg) : bool :=
+  N.eqb (ls_size_after s) (frames_len (ls_tbl s) (complete_frames (ls_tbl s) (ls_cut s))).
+
 (* ---------- block values ---------- *)
 
 Inductive bvals := BInt (l : list N) | BUns (l : list N) | BFloat (l : list N) | BBool (l : list bool).
@@ -150,7 +162,15 @@ Inductive case :=
 | CWalUnm (typ : N) (payload : bytes) (cls : N) (e : option wal_entry)
 (* a log: entries, snappy table (payload, compressed) per entry, real segment bytes, and
    the real reader run on several truncations *)
-| CWalCut (es : list wal_entry) (tbl : list (bytes * bytes)) (seg : bytes) (cuts : list cut_obs).
+| CWalCut (es : list wal_entry) (tbl : list (bytes * bytes)) (seg : bytes) (cuts : list cut_obs)
+(* several segment files, some torn, replayed by the real CacheLoader.Load (ONE reader reused
+   across files, torn files truncated at Count()): Load's error / panic, file sizes afterwards *)
+| CWalLoad (segs : list load_seg) (err panicked : bool)
+(* very long strings (up to > 2 MiB): judged on the implementation's observation only; the
+   model is not evaluated at these sizes.  lens = string lengths, h = content hash,
+   ci / cb = outcome of iterator / batch encoder + both decoders:
+   0 exact round trip, 1 values differ, 2 error, 3 panic *)
+| CBig (lens : list N) (h : N) (ci cb : N).
 
 Definition all_same {A} (a b c d : dobs A) : bool := is_same a && is_same b && is_same c && is_same d.
 
@@ -270,4 +290,8 @@ Definition check_case (c : case) : N :=
   | CWalCut es tbl seg cuts =>
       let agree := segment_matches es tbl seg && forallb (cut_agree es tbl seg) cuts in
       code agree (forallb (cut_spec tbl) cuts)
+  | CWalLoad segs err panicked =>
+      let agree := negb err && negb panicked && forallb load_agree segs in
+      code agree (negb err && negb panicked && forallb load_spec segs)
+  | CBig _ _ ci cb => code true (N.eqb ci 0 && N.eqb cb 0)
   end.
